@@ -64,6 +64,7 @@ type logSpec struct {
 	File   string   `json:"file"`
 	Format string   `json:"format"`
 	Except []string `json:"except"`
+	NoRoll bool     `json:"rotate_disable,omitempty"` // the file is written directly, without the log roller
 	toks   []tok
 	sig    string
 }
@@ -71,8 +72,15 @@ type logSpec struct {
 func (l *logSpec) directive() string {
 	q := strings.ReplaceAll(l.Format, `"`, `\"`)
 	s := fmt.Sprintf("\tlog %s %s \"%s\"", l.Scope, l.File, q)
+	var sub []string
+	if l.NoRoll {
+		sub = append(sub, "rotate_disable")
+	}
 	if len(l.Except) > 0 {
-		s += " {\n\t\texcept " + strings.Join(l.Except, " ") + "\n\t}"
+		sub = append(sub, "except "+strings.Join(l.Except, " "))
+	}
+	if len(sub) > 0 {
+		s += " {\n\t\t" + strings.Join(sub, "\n\t\t") + "\n\t}"
 	}
 	return s + "\n"
 }
@@ -325,6 +333,7 @@ func genSites(c *lib.Ctx, round, n int, logDir string) []*site {
 			l := &logSpec{Idx: j, Scope: sc, File: filepath.Join(logDir, fmt.Sprintf("s%d-l%d.log", i, j))}
 			l.Format = genFormat(r)
 			l.Except = genExcept(r, sc)
+			l.NoRoll = (i+j)%3 == 1
 			if i == 0 {
 				if j == 0 {
 					l.Except = []string{"/a/p/skip", "/b/f"}
@@ -574,6 +583,9 @@ func outcomes(seed uint64) []outcome {
 	addP("ret0-nothing", probe.Spec{})
 	addP("ret200-nothing", probe.Spec{Ret: 200})
 	addP("ret302-nothing", probe.Spec{Ret: 302})
+	addP("i103-w200", probe.Spec{Info: 103, Code: 200, Writes: w(300)})
+	addP("i103-w404", probe.Spec{Info: 103, Code: 404, Writes: w(120)})
+	addP("i103-ret404", probe.Spec{Info: 103, Ret: 404})
 	addP("w200-implicit-1", probe.Spec{Writes: w(1)})
 	addP("w200-implicit-100", probe.Spec{Writes: w(100)})
 	addP("w200-implicit-5000x3", probe.Spec{Writes: w(1000, 3000, 1000)})
@@ -1174,13 +1186,15 @@ func run(c *lib.Ctx) {
 		var inst *casket.Instance
 		var port int
 		var err error
+		var cfText []byte
 		for attempt := 0; attempt < 4; attempt++ {
 			port = lib.FreePort()
 			var cf strings.Builder
 			for _, s := range sites {
 				cf.WriteString(s.block(port, root))
 			}
-			os.WriteFile(filepath.Join(logDir, "Casketfile"), []byte(cf.String()), 0o644)
+			cfText = []byte(cf.String())
+			os.WriteFile(filepath.Join(logDir, "Casketfile"), cfText, 0o644)
 			c.Journal("round %d: starting instance with %d sites (Casketfile in %s)", round, len(sites), logDir)
 			inst, err = lib.Start(cf.String(), filepath.Join(logDir, "Casketfile"))
 			if err == nil || !strings.Contains(err.Error(), "address already in use") {
@@ -1211,7 +1225,25 @@ func run(c *lib.Ctx) {
 			wg.Add(1)
 			go rn.worker(ch, &wg)
 		}
-		for _, i := range perm {
+		for _, i := range perm[:len(perm)/2] {
+			ch <- reqs[i]
+		}
+		close(ch)
+		wg.Wait()
+		// a reload of the very same configuration in the middle of the round: the new
+		// instance's logs continue the files, nothing written so far is lost
+		if ni, err := inst.Restart(lib.Input(string(cfText), filepath.Join(logDir, "Casketfile"))); err != nil {
+			c.Inconclusive(fmt.Sprintf("round %d: reload of the same configuration failed: %v", round, err))
+		} else {
+			inst = ni
+			c.Count("mid_round_reloads", 1)
+		}
+		ch = make(chan *reqRec, 128)
+		for i := 0; i < workers; i++ {
+			wg.Add(1)
+			go rn.worker(ch, &wg)
+		}
+		for _, i := range perm[len(perm)/2:] {
 			ch <- reqs[i]
 		}
 		close(ch)
